@@ -297,3 +297,220 @@ Proof.
   intros H Hs. pose proof (readPtr_limit_spec strict m 0 sid s paddr depth) as G. rewrite H in G.
   destruct (0 >=? sz) eqn:E; [lia|exact G].
 Qed.
+
+(* ------------------------------------------------------------------ depth *)
+Definition two64m := 18446744073709551616.
+
+Lemma uint_dec_spec d : 1 <= d -> 0 <= uint_dec d <= d - 1.
+Proof. unfold uint_dec, u64. lia. Qed.
+
+(* a valid pointer handed out by readPtr has strictly less depth budget than was passed in,
+   and readPtr hands out nothing valid at depth budget 0 *)
+Lemma readPtr_depth strict m rl sid s paddr depth q : 0 <= depth ->
+  fst (readPtr strict m rl sid s paddr depth) = Ok q -> p_valid q = true ->
+  1 <= depth /\ 0 <= p_depth q <= depth - 1.
+Proof.
+  intros Hd. unfold readPtr.
+  destruct (resolveFarPointer _ _ _ _) as [[[[dsid dst] base] val]| |]; try discriminate.
+  destruct (val =? 0); [cbn [fst]; intros H; inversion H; discriminate|].
+  destruct (depth =? 0) eqn:Ed; [discriminate|]. cbv zeta.
+  pose proof (uint_dec_spec depth ltac:(lia)) as Hu.
+  destruct (pointerType val =? structPointer).
+  { destruct (readStructPtr _ _ _ _); try discriminate.
+    destruct (canRead _ _) as [ok rl']. destruct ok; [|discriminate].
+    cbn [fst]. intros H _. inversion H. pcbn. lia. }
+  destruct (pointerType val =? listPointer).
+  { destruct (readListPtr _ _ _ _ _); try discriminate.
+    destruct (canRead _ _) as [ok rl']. destruct ok; [|discriminate].
+    cbn [fst]. intros H _. inversion H. pcbn. lia. }
+  destruct (pointerType val =? otherPointer); [|discriminate].
+  destruct (otherPointerType val =? 0); cbn [negb]; [|discriminate].
+  cbn [fst]. intros H _. inversion H. pcbn. lia.
+Qed.
+
+Lemma struct_ptr_depth c m rl p i q : 0 <= p_depth p ->
+  fst (struct_ptr c m rl p i) = Ok q -> p_valid q = true ->
+  p_valid p = true /\ 1 <= p_depth p /\ 0 <= p_depth q <= p_depth p - 1.
+Proof.
+  intros Hd. unfold struct_ptr. destruct (p_valid p); cbn [negb orb].
+  - dif; [cbn [fst]; intros H; inversion H; discriminate|].
+    intros H V. split; [reflexivity|]. eapply readPtr_depth; eassumption.
+  - cbn [fst]. intros H; inversion H; discriminate.
+Qed.
+
+Lemma ptrlist_at_depth c fu m rl p i q : 0 <= p_depth p ->
+  fst (ptrlist_at c fu m rl p i) = Ok q -> p_valid q = true ->
+  p_valid p = true /\ 1 <= p_depth p /\ 0 <= p_depth q <= p_depth p - 1.
+Proof.
+  intros Hd. unfold ptrlist_at. destruct (primitiveElem fu p i _) eqn:E; try discriminate.
+  intros H V. split; [|eapply readPtr_depth; eassumption].
+  unfold primitiveElem in E. destruct (p_valid p); [reflexivity|discriminate].
+Qed.
+
+(* List.Struct (repaired: saturating decrement) never increases the depth budget *)
+Lemma list_struct_depth p i q : 0 <= p_depth p ->
+  list_struct true p i = Ok q -> p_valid q = true ->
+  p_valid p = true /\ 0 <= p_depth q <= p_depth p.
+Proof.
+  intros Hd. unfold list_struct. destruct (p_valid p); cbn [negb orb]; [|discriminate].
+  dif; [discriminate|]. destruct (p_bit p); [intros H; inversion H; discriminate|].
+  destruct (element _ _ _); [|intros H; inversion H; discriminate].
+  intros H _. inversion H. pcbn. split; [reflexivity|]. cbn [andb].
+  destruct (p_depth p =? 0) eqn:E; [lia|]. pose proof (uint_dec_spec (p_depth p) ltac:(lia)). lia.
+Qed.
+
+(* ghost: for every handle, the number of successful pointer dereferences (Root's own,
+   Struct.Ptr, PointerList.At) on the access path that produced it; List.Struct is a
+   projection and does not count.  Only meaningful for valid handles (an invalid handle is
+   the result of a failed or null dereference). *)
+Definition lvl_of (lv : list Z) (h : Z) : Z := nth (Z.to_nat h) lv 0.
+Definition step_lvl (lv : list Z) (o : op) : list Z :=
+  match o with
+  | ORoot => lv ++ [1]
+  | OSPtr h _ | OPLAt h _ => lv ++ [lvl_of lv h + 1]
+  | OLStruct h _ => lv ++ [lvl_of lv h]
+  | _ => lv
+  end.
+Definition run_lvl (ops : list op) : list Z := fold_left step_lvl ops [].
+
+Definition depth_inv (D : Z) (st : rstate) (lv : list Z) : Prop :=
+  length lv = length (rs_handles st) /\
+  forall h, p_valid (handle st h) = true ->
+    1 <= lvl_of lv h /\ 0 <= p_depth (handle st h) /\ p_depth (handle st h) + lvl_of lv h <= D.
+
+Lemma as_struct_valid p : p_valid (as_struct p) = true -> as_struct p = p /\ p_valid p = true.
+Proof.
+  unfold as_struct, is_struct. destruct (p_valid p) eqn:V; cbn [andb]; [|discriminate].
+  destruct (p_kind p); try discriminate. auto.
+Qed.
+Lemma as_list_valid p : p_valid (as_list p) = true -> as_list p = p /\ p_valid p = true.
+Proof.
+  unfold as_list, is_list. destruct (p_valid p) eqn:V; cbn [andb]; [|discriminate].
+  destruct (p_kind p); try discriminate. auto.
+Qed.
+Lemma as_struct_depth p : 0 <= p_depth p -> 0 <= p_depth (as_struct p).
+Proof. unfold as_struct. destruct (is_struct p); cbn; lia. Qed.
+
+(* pushing a handle: old handles keep their pointer and level *)
+Lemma depth_inv_push D st lv r rl l :
+  depth_inv D st lv ->
+  (forall q, r = Ok q -> p_valid q = true -> 1 <= l /\ 0 <= p_depth q /\ p_depth q + l <= D) ->
+  depth_inv D (push st r rl) (lv ++ [l]).
+Proof.
+  intros [Hlen Hinv] Hnew. split.
+  - unfold push. cbn [rs_handles]. rewrite !app_length, Hlen. reflexivity.
+  - intros h. unfold handle, push, lvl_of. cbn [rs_handles].
+    remember (Z.to_nat h) as n eqn:Hn. clear Hn.
+    destruct (Nat.lt_ge_cases n (length lv)) as [L|G].
+    + rewrite !app_nth1 by lia. specialize (Hinv (Z.of_nat n)).
+      unfold handle, lvl_of in Hinv. rewrite Nat2Z.id in Hinv. exact Hinv.
+    + destruct (Nat.eq_dec n (length lv)) as [E|N].
+      * subst n. rewrite (nth_middle lv []). rewrite Hlen. rewrite (nth_middle (rs_handles st) []).
+        destruct r as [q| |]; try (cbn; discriminate). apply Hnew. reflexivity.
+      * rewrite (nth_overflow (rs_handles st ++ _)) by (rewrite app_length; cbn; lia).
+        cbn. discriminate.
+Qed.
+
+Lemma depth_inv_rl D st lv rl : depth_inv D st lv -> depth_inv D (mkRS (rs_handles st) rl) lv.
+Proof. intros H. exact H. Qed.
+
+Lemma depth_limit_spec c : 1 <= cfg_D c -> depth_limit c = cfg_D c.
+Proof. unfold depth_limit. dif; lia. Qed.
+
+Lemma step_depth c fx m st lv o : 1 <= cfg_D c -> fx_depth fx = true ->
+  depth_inv (cfg_D c) st lv -> depth_inv (cfg_D c) (fst (step c fx m st o)) (step_lvl lv o).
+Proof.
+  intros HD Hfd Hinv. pose proof Hinv as [Hlen Hh].
+  destruct o; cbn [step step_lvl]; try exact Hinv.
+  - (* root *)
+    destruct (root c m (rs_rl st)) as [r rl] eqn:Er. cbn [fst]. apply depth_inv_push; [assumption|].
+    intros q -> V. unfold root in Er. destruct (lookup_segment m 0) as [s0| |]; try (inversion Er; discriminate).
+    destruct (negb _); [inversion Er; destruct (cfg_root c); discriminate|].
+    pose proof (readPtr_depth (cfg_strict c) m (rs_rl st) 0 s0 0 (depth_limit c) q) as H.
+    rewrite Er in H. rewrite depth_limit_spec in H by assumption. specialize (H ltac:(lia) eq_refl V). lia.
+  - (* Struct.Ptr *)
+    destruct (struct_ptr c m (rs_rl st) (as_struct (handle st h)) i) as [r rl] eqn:Er. cbn [fst].
+    apply depth_inv_push; [assumption|]. intros q -> V.
+    destruct (p_valid (as_struct (handle st h))) eqn:Vp.
+    + destruct (as_struct_valid _ Vp) as [Es Vh]. destruct (Hh h Vh) as (L1 & L2 & L3).
+      pose proof (struct_ptr_depth c m (rs_rl st) (as_struct (handle st h)) i q) as H.
+      rewrite Er, Es in H. specialize (H L2 eq_refl V). lia.
+    + unfold struct_ptr in Er. rewrite Vp in Er. cbn [negb orb] in Er. inversion Er; subst. discriminate.
+  - (* List.Struct *)
+    cbn [fst]. apply depth_inv_push; [assumption|]. intros q Eq V. rewrite Hfd in Eq.
+    destruct (p_valid (as_list (handle st h))) eqn:Vp.
+    + destruct (as_list_valid _ Vp) as [Es Vh]. destruct (Hh h Vh) as (L1 & L2 & L3).
+      rewrite Es in Eq. pose proof (list_struct_depth _ i q L2 Eq V). lia.
+    + unfold list_struct in Eq. rewrite Vp in Eq. discriminate.
+  - (* PointerList.At *)
+    destruct (ptrlist_at c (fx_upgrade fx) m (rs_rl st) (as_list (handle st h)) i) as [r rl] eqn:Er. cbn [fst].
+    apply depth_inv_push; [assumption|]. intros q -> V.
+    destruct (p_valid (as_list (handle st h))) eqn:Vp.
+    + destruct (as_list_valid _ Vp) as [Es Vh]. destruct (Hh h Vh) as (L1 & L2 & L3).
+      pose proof (ptrlist_at_depth c (fx_upgrade fx) m (rs_rl st) (as_list (handle st h)) i q) as H.
+      rewrite Er, Es in H. specialize (H L2 eq_refl V). lia.
+    + unfold ptrlist_at, primitiveElem in Er. rewrite Vp in Er. cbn [negb orb] in Er. inversion Er.
+  - (* walk: handles unchanged *)
+    destruct (walk _ _ _ _ _ _ _ _) as [t rl]. cbn [fst]. exact Hinv.
+Qed.
+
+Lemma run_depth c fx m : 1 <= cfg_D c -> fx_depth fx = true ->
+  forall ops st lv, depth_inv (cfg_D c) st lv ->
+  depth_inv (cfg_D c) (fst (run c fx m st ops)) (fold_left step_lvl ops lv).
+Proof.
+  intros HD Hfd. induction ops as [|o ops IH]; intros st lv Hinv; cbn [run fold_left].
+  - exact Hinv.
+  - pose proof (step_depth c fx m st lv o HD Hfd Hinv) as H.
+    destruct (step c fx m st o) as [st1 v]. cbn [fst] in H.
+    specialize (IH st1 _ H). destruct (run c fx m st1 ops) as [st2 vs]. exact IH.
+Qed.
+
+(* depth_bound: for every op list mixing Struct.Ptr / PointerList.At / List.Struct in any
+   order, every valid handle was reached through at most D successful dereferences (the
+   root pointer's included), and its remaining depth budget plus that number is at most D.
+   For all D >= 1 (both parities). *)
+Theorem depth_bound c fx m ops : 1 <= cfg_D c -> fx_depth fx = true ->
+  let st := fst (run c fx m (init_state c) ops) in
+  forall h, p_valid (handle st h) = true ->
+    1 <= lvl_of (run_lvl ops) h <= cfg_D c /\
+    0 <= p_depth (handle st h) /\
+    p_depth (handle st h) + lvl_of (run_lvl ops) h <= cfg_D c.
+Proof.
+  intros HD Hfd st h V.
+  assert (depth_inv (cfg_D c) (init_state c) []) as H0.
+  { split; [reflexivity|]. intros h0. unfold handle, init_state. cbn [rs_handles].
+    destruct (Z.to_nat h0); cbn; discriminate. }
+  pose proof (run_depth c fx m HD Hfd ops _ _ H0) as [_ H]. specialize (H h V). unfold run_lvl. subst st. lia.
+Qed.
+
+(* consequence: a dereference applied to a handle already D levels deep never yields a
+   valid pointer *)
+Corollary depth_exhausted c fx m ops o : 1 <= cfg_D c -> fx_depth fx = true ->
+  let st := fst (run c fx m (init_state c) ops) in
+  forall h i, (o = OSPtr h i \/ o = OPLAt h i) -> cfg_D c <= lvl_of (run_lvl ops) h ->
+  forall q, snd (step c fx m st o) = VPtr (Ok q) -> p_valid q = false.
+Proof.
+  intros HD Hfd st h i Ho Hl q Hq.
+  destruct (p_valid q) eqn:V; [|reflexivity]. exfalso.
+  pose proof (depth_bound c fx m (ops ++ [o]) HD Hfd) as H. cbn zeta in H.
+  rewrite run_app in H. cbn [fst run] in H. fold st in H.
+  assert (length (run_lvl ops) = length (rs_handles st)) as Hlen.
+  { assert (depth_inv (cfg_D c) (init_state c) []) as H0.
+    { split; [reflexivity|]. intros h0. unfold handle, init_state. cbn [rs_handles].
+      destruct (Z.to_nat h0); cbn; discriminate. }
+    exact (proj1 (run_depth c fx m HD Hfd ops _ _ H0)). }
+  specialize (H (Z.of_nat (length (rs_handles st)))).
+  unfold run_lvl in H. rewrite fold_left_app in H. cbn [fold_left] in H. fold (run_lvl ops) in H.
+  destruct (step c fx m st o) as [st1 v] eqn:Es. cbn [fst snd] in *. subst v.
+  assert (handle st1 (Z.of_nat (length (rs_handles st))) = q /\
+          lvl_of (step_lvl (run_lvl ops) o) (Z.of_nat (length (rs_handles st))) = lvl_of (run_lvl ops) h + 1) as [E1 E2].
+  { unfold handle, lvl_of. rewrite Nat2Z.id.
+    destruct Ho as [-> | ->]; cbn [step step_lvl] in *.
+    - destruct (struct_ptr _ _ _ _ _) as [r rl]. inversion Es; subst. unfold push. cbn [rs_handles].
+      rewrite (nth_middle (rs_handles st) []). rewrite <- Hlen. rewrite (nth_middle (run_lvl ops) []).
+      split; reflexivity.
+    - destruct (ptrlist_at _ _ _ _ _ _) as [r rl]. inversion Es; subst. unfold push. cbn [rs_handles].
+      rewrite (nth_middle (rs_handles st) []). rewrite <- Hlen. rewrite (nth_middle (run_lvl ops) []).
+      split; reflexivity. }
+  rewrite E1, E2 in H. specialize (H V). lia.
+Qed.
